@@ -138,6 +138,19 @@ let handle (toks : string list) : string =
   | ["matcher"; size; b; e; a; t] ->
     let sz = n_of_string size in
     nums (matcher_run (index_for sz) sz (matcher_filters h (parse_addrs a) (parse_tops t)) (n_of_string b) (n_of_string e))
+  (* the byte-level matcher (packed rows, byte-wise AND/OR/Test, zero-byte skip) *)
+  | ["matcherb"; size; b; e; a; t] ->
+    let sz = n_of_string size in
+    let idxb = let f = index_for sz in fun bit s -> pack (f bit s) in
+    nums (matcher_run_b idxb sz (matcher_filters h (parse_addrs a) (parse_tops t)) (n_of_string b) (n_of_string e))
+  (* raw NewMatcher clauses: - | clause/clause   clause := * (empty) | alt,alt   alt := nil | hex *)
+  | ["matcherraw"; size; b; e; cls] ->
+    let sz = n_of_string size in
+    let clauses = if cls = "-" then [] else
+        List.map (fun cl -> if cl = "*" then [] else
+                     List.map (fun a -> if a = "nil" then None else Some (bytes_of_hex a)) (String.split_on_char ',' cl))
+          (String.split_on_char '/' cls) in
+    nums (matcher_run (index_for sz) sz (new_matcher_filters h clauses) (n_of_string b) (n_of_string e))
   | ["query"; size; sections; b; e; a; t] ->
     let sz = n_of_string size in
     tags (filter_query h (parse_addrs a) (parse_tops t) (cur_chain ()) (index_for sz) sz (n_of_string sections)
